@@ -166,6 +166,11 @@ def _well_typed(t, op):
     return True
 
 
+class _Colour(__import__("enum").IntEnum):
+    RED = 1
+    BLUE = 3
+
+
 def run_impl(c):
     from nitypes.vector import Vector
     k = c["k"]
@@ -182,6 +187,37 @@ def run_impl(c):
             t = [n for n, ty in TYPES.items() if ty is v._value_type]
             return {"t": t[0] if t else "TStr", "items": [_enc(x) for x in v], "known_type": bool(t)}
         return vf.try_impl(f)
+    if k == "subclass":
+        import enum
+        import numpy as np
+        mk = {0: lambda i: 0.5 + i, 1: lambda i: np.float64(1.5 + i), 2: lambda i: "s%d" % i, 3: lambda i: np.str_("n%d" % i),
+              4: lambda i: 10 + i, 5: lambda i: _Colour(1 + 2 * (i % 2)), 6: lambda i: bool(i % 2)}
+        first = mk[c["first"]](0)
+        items = [mk[cl](j + 1) for j, cl in enumerate(c["items"])]
+        if c["path"] == "ctor":
+            try:
+                vec = Vector([first] + items)
+                accepted = True
+            except TypeError:
+                vec = Vector([first])
+                accepted = False
+        else:
+            vec = Vector([first])
+            accepted = True
+            try:
+                if c["path"] == "append":
+                    for it in items:
+                        vec.append(it)
+                elif c["path"] == "setslice":
+                    vec[1:] = items
+                else:
+                    vec.insert(1, items[0]) if items else None
+                    for it in items[1:]:
+                        vec.insert(len(vec), it)
+            except TypeError:
+                accepted = False
+                del vec[1:]      # what an all-or-nothing reading keeps: only the first item (a prefix may have been appended)
+        return {"accepted": accepted, "vt_first": vec._value_type is type(first), "stored": len(vec)}
     if k == "eq":
         # each side gets the value type of its own items (int vectors may hold bools); empty sides get c["t1"]/c["t2"]
         def mk(items, units, tname):
@@ -309,6 +345,8 @@ def to_coq(c, r):
         vt = "None" if not c.get("value_type") else "(Some %s)" % c["value_type"]
         out = "(Raise %s)" % r["exc"] if "exc" in r else "(Ok (%s, %s))" % (r["ok"]["t"], _svl(r["ok"]["items"]))
         return "VCtor %s %s %s" % (_iterc(c["items"]), vt, out)
+    if k == "subclass":
+        return "VSubclass %s %s %s %s %s" % (vf.zc(c["first"]), vf.listc(c["items"]), vf.boolc(r["accepted"]), vf.boolc(r["vt_first"]), vf.zc(r["stored"]))
     if k == "eq":
         return "VEq %s %s %s %s %s" % (_svl(c["l1"]), vf.zc(abs(hash(c["u1"])) % 1000 if c["u1"] else 0), _svl(c["l2"]),
                                        vf.zc(abs(hash(c["u2"])) % 1000 if c["u2"] else 0), vf.boolc(r["eq"]))
@@ -325,6 +363,8 @@ def sig(c, r):
     if k == "ctor":
         kinds = "".join(sorted({v[0] for v in c["items"][1]})) if c["items"][0] not in ("notiter",) else ""
         return "ctor|%s|%s|n%d|vt%s|%s" % (c["items"][0], kinds, min(len(c["items"][1]), 3), c.get("value_type"), r.get("exc", "ok")), True
+    if k == "subclass":
+        return "subclass|%s|%s|%s|%s" % (c["path"], c["first"], "".join(map(str, c["items"][:2])), r["accepted"]), True
     if k == "eq":
         return "eq|%s|%s" % (c["u1"] == c["u2"], r["eq"]), True
     parts = []
@@ -460,6 +500,12 @@ def gen_cases(rng, tier):
             cases.append({"k": "eq", "l1": [v for v in l1 if v[0] in ("i", "b")] if conv != "f" else [v for v in l1 if v[0] == "i" and abs(v[1]) < 10**6],
                           "u1": u1, "l2": l3 if conv != "f" else [x for x in l3 if x[0] == "f"], "u2": u1,
                           "t1": rng.choice(["TInt", "TBool", "TFloat", "TStr"]), "t2": rng.choice(["TInt", "TBool", "TFloat", "TStr"])})
+    # first items (and later ones) whose class is a subclass of float / str / int
+    for first in range(7):
+        for path in ("ctor", "append", "setslice", "insert"):
+            for _ in range(2 if not big else 12):
+                items = [rng.choice([first, first, first, rng.randrange(7)]) for _ in range(rng.choice([0, 1, 1, 2, 3]))]
+                cases.append({"k": "subclass", "first": first, "items": items, "path": path})
     # histories
     for _ in range(900 if not big else 20000):
         t = rng.choice(types)
